@@ -190,6 +190,9 @@ class Lit:
             cstr(g["name"]), cpairs(g["sig"]), cpairs(g["map"]), cbool(g["pos"]))
 
     def pf(self, f):
+        if not f.get("is_float", True):      # a Python int where a float is expected (never seen on a parser / effect route)
+            return "{| pf_name := %s; pf_sig := %s; pf_val := %s; pf_rep := %s; pf_int := true |}" % (
+                cstr(f["name"]), cpairs(f["sig"]), hexlit(f["val"]), cpairs(f["rep"], lambda k: "%d%%nat" % k))
         return "N %s %s %s %s" % (cstr(f["name"]), self.sig(f["sig"]), hexlit(f["val"]),
                                    cpairs(f["rep"], lambda k: "%d%%nat" % k))
 
@@ -252,7 +255,53 @@ def values_of(res):
     return vals
 
 
-def case_literal(res, ff):
+_FLUENT = None
+
+
+def text_has_repeat(text):
+    """a '(= (f a b a) v)' item with a repeated argument somewhere in a problem / state / trajectory text"""
+    import re
+    global _FLUENT
+    if _FLUENT is None:
+        _FLUENT = re.compile(r"\(=\s*\(([^()]*)\)")
+    for m in _FLUENT.finditer(text):
+        args = m.group(1).split()[1:]
+        if len(set(args)) < len(args):
+            return True
+    return False
+
+
+def may_repeat(inp, res):
+    """INPUT-side part of finding D07's class: can this input lead to a ground fluent with a repeated argument?
+    Conservative and syntactic: the first state's text has one; the domain writes a term such as (f c c) / (f ?x ?x);
+    a call of the plan repeats an argument; a call names a constant that the domain pairs with a variable inside a
+    function term; the domain quantifies (forall) and has a function term with two variables (the quantified variable
+    ranges over the call's own arguments).  Shipped files: their own text."""
+    import re
+    if inp["kind"] == "shipped":
+        return text_has_repeat(res.get("source") or "")
+    if text_has_repeat(inp["problem_text"]):
+        return True
+    consts = {n for n, _ in res.get("vocab", {}).get("consts", [])}
+    terms = []
+    for fname, _ in res.get("vocab", {}).get("funcs", []):
+        for m in re.finditer(r"\(%s((?:\s+[^()\s]+)*)\s*\)" % re.escape(fname), inp.get("domain_text", "")):
+            terms.append(m.group(1).split())
+    if any(len(set(t)) < len(t) for t in terms):
+        return True
+    if "(forall" in inp.get("domain_text", "") and any(len({a for a in t if a.startswith("?")}) >= 2 for t in terms):
+        return True
+    risky = {c for t in terms for c in t if c in consts and any(a.startswith("?") for a in t)}
+    for step in res.get("plan") or []:
+        calls = step if step and isinstance(step[0], list) else [step]
+        for c in calls:
+            args = c[1]
+            if len(set(args)) < len(args) or any(a in risky for a in args):
+                return True
+    return False
+
+
+def case_literal(res, ff, may_rep=True):
     L = Lit()
     joint = res.get("agents") is not None
     v = res["vocab"]
@@ -270,10 +319,10 @@ def case_literal(res, ff):
     with_ = coresult(res.get("with"))
     ded = coresult(res.get("deduced") or {"raised": "NotRun"})[len("(Some "):-1]
     body = ("{| c_dom := %s; c_nums := %s; c_repr := %s; c_objs := %s; c_agents := %s; c_first := %s; c_steps := %s; "
-            "c_export := %s; c_source := %s; c_with := %s; c_deduced := %s; c_strict := %s |}") % (
+            "c_export := %s; c_source := %s; c_with := %s; c_deduced := %s; c_strict := %s; c_may_repeat := %s |}") % (
         dom, nums, reprs, cpairs(res["objects"]), agents, first, steps, cobs_val(res.get("export"), cstr),
         "(Some %s)" % cstr(res["source"]) if res.get("source") else "None", with_, ded,
-        cobs_val(res.get("strict"), lambda n: "%d%%nat" % n))
+        cobs_val(res.get("strict"), lambda n: "%d%%nat" % n), cbool(may_rep))
     return L.wrap(body)
 
 
@@ -282,7 +331,10 @@ def dump_has_repeat(d, vocab=None):
     arity = {n: len(sg) for n, sg in (vocab or {}).get("funcs", [])}
     for _, f in d["fluents"]:
         vs = vars_of(f["sig"], f["rep"])
-        if len(set(vs)) < len(vs) or (f["name"] in arity and arity[f["name"]] != len(vs)):
+        if f["name"] in arity:
+            if len(vs) < arity[f["name"]] or (len(vs) == arity[f["name"]] and len(set(vs)) < len(vs)):
+                return True         # (never MORE arguments than declared: D07 drops arguments, it does not invent them)
+        elif len(set(vs)) < len(vs):
             return True
     return False
 
@@ -398,10 +450,13 @@ def run(args):
             p = write_replay(PROP, "file_or_chain_%d" % len(cases), {"kind": "input", "why": "export_to_file wrote another text than export(), or the exporter's triplets are not a chain",
                                                                      "input": {"case": inp}, "file_same": r.get("file_same"), "chain": r.get("chain")})
             rep.violation(p, True)
-        lit = case_literal(r, ff)
+        main_inp = inp.get("main", inp)
+        may_rep = may_repeat(main_inp, r)
+        stats["may_repeat_inputs"] = stats.get("may_repeat_inputs", 0) + (1 if may_rep else 0)
+        lit = case_literal(r, ff, may_rep)
         stats["literal_bytes_max"] = max(stats["literal_bytes_max"], len(lit))
         lits.append(lit)
-        klass = "D07" if rept else ("D56" if n == 0 else None)
+        klass = "D07" if (rept and may_rep) else ("D56" if n == 0 else None)
         small = {k: v for k, v in r.items() if k not in ("source",)}
         cases.append({"lit": lit, "input": {"case": inp, "implementation": small if len(lit) < 60000 else {"plan": r.get("plan"), "export": "(omitted: large)"}},
                       "nontrivial": n >= 1 and any(d["preds"] or d["fluents"] for d in dumps),
